@@ -72,6 +72,12 @@ def _ops():
         "remove_nomatch": lambda db: db.remove(qn),
         "remove_nomatch_filter": lambda db: db.remove(qa, "zz"),
         "remove_time_nomatch": lambda db: db.remove(TimeQuery() < mk_time(T0 - 10**9)),
+        # queries the index can only answer with candidates (here: every position): nothing matches
+        "remove_notfield_nomatch": lambda db: db.remove(~(FieldQuery().f.exists())),
+        "remove_notfield_and_nomatch": lambda db: db.remove((TagQuery().j == "x") & ~(FieldQuery().f.exists())),
+        "remove_map_nomatch": lambda db: db.remove(TagQuery().map(lambda t: len(t)) == 0),
+        "m.remove_notfield_nomatch": lambda db: db.measurement("m").remove(~(FieldQuery().f.exists())),
+        "update_notfield_nomatch": lambda db: db.update(~(FieldQuery().f.exists()), tags={"k": "b"}),
         "update_nomatch": lambda db: db.update(qn, tags={"k": "b"}),
         "update_nochange": lambda db: db.update(qa, tags={"k": "a"}),
         "update_nochange_fields": lambda db: db.update(MeasurementQuery() == "m", fields={"f": 1}),
